@@ -38,6 +38,9 @@ def run(ctx, report):
     report.section("written documents", writer_doc_fold.run, ctx, report, ("cues", "times", "grammar"),
                    {"cues": "1", "times": "1", "grammar": "1"},
                    {"cues": "R-DOC-CUES", "times": "R-DOC-TIMES", "grammar": "R-DOC-GRAMMAR"})
+    from . import markup_writer_fold
+    report.section("written markup documents", markup_writer_fold.run, ctx, report, {
+        "times": ("R-DOC-TIMES", "1"), "sami_syncs": ("R-DOC-CUES", "4")})
     report.not_decided += [
         "SAMI: whether a blank sync is needed beyond the structural test (truthiness of last_time makes an end "
         "at 0 ms special - value dependent)", "how WebVTT splits a caption by layout",
